@@ -524,7 +524,7 @@ def _verify_case(mod, fname, contract, params, unroll, prop_prefix, only_safety,
                 if mode == "try-hint":
                     # an optional intermediate fact (e.g. one of several candidate witnesses): used if it is proved, ignored otherwise
                     if r2 == z3.unsat:
-                        obs.append(core.Obligation(pname, core.PROVED, "z3-5.1(py)", dt2, detail="intermediate fact, then used as a hypothesis"))
+                        obs.append(core.Obligation(pname + " (optional-hint)", core.PROVED, "z3-5.1(py)", dt2, detail="intermediate fact, then used as a hypothesis"))
                         hyp = hyp + [pgoal]
                     continue
                 if r2 == z3.unsat:
